@@ -104,26 +104,39 @@ def idRun (env : Env) (s : Str) : Option (Str × Str) :=
     else none
   | [] => none
 
-/-- `<qualifier>` / `{qualifier}` tail at `s` (which starts with `open_`): returns (qualifier, rest after close). -/
-def qualifierTail (env : Env) (open_ close : Char) (s : Str) : Option (Str × Str) :=
+/-- `{qualifier}` tail at `s` (`_match_curly_brace_annotation`): returns (qualifier, rest after `}`). -/
+def curlyTail (env : Env) (s : Str) : Option (Str × Str) :=
   match s with
-  | o :: r =>
-    if o == open_ then
-      match idRun env r with
-      | some (q, c :: r') => if c == close then some (q, r') else none
+  | '{' :: r =>
+    match idRun env r with
+    | some (q, '}' :: r') => some (q, r')
+    | _ => none
+  | _ => none
+
+/-- `<qualifier>` tail at `s`: `<>` (empty), or an identifier-start char followed by identifier-body chars
+or commas, trailing hyphens given back, then `>`.  Returns (text between the brackets, rest after `>`). -/
+def angleTail (env : Env) (s : Str) : Option (Str × Str) :=
+  match s with
+  | '<' :: '>' :: r => some ([], r)
+  | '<' :: c :: cs =>
+    if env.idStart c then
+      let (body, r) := takeWhile (fun d => env.idChar d || d == ',') cs
+      let (kept, back) := stripHyphens (c :: body)
+      match back ++ r with
+      | '>' :: r' => some (kept, r')
       | _ => none
     else none
-  | [] => none
+  | _ => none
 
 /-- `_match_unicode_identifier`: (token value, consumed length is the value's length, rest, optional repair (original, repaired)). -/
 def matchIdentifier (env : Env) (lenient : Bool) (s : Str) : Option (Str × Str × Option (Str × Str)) :=
   match idRun env s with
   | none => none
   | some (name, r) =>
-    let (name1, r1) := match qualifierTail env '<' '>' r with
+    let (name1, r1) := match angleTail env r with
       | some (q, r') => (name ++ '<' :: q ++ ['>'], r')
       | none => (name, r)
-    match qualifierTail env '{' '}' r1 with
+    match curlyTail env r1 with
     | some (q, r2) =>
       let original := name1 ++ '{' :: q ++ ['}']
       let repaired := name1 ++ '<' :: q ++ ['>']
@@ -145,22 +158,18 @@ def kw (env : Env) (prev : Option Char) (word : Str) (s : Str) : Option Str :=
   | some r => if env.boundary prev s.head? && env.boundary word.getLast? r.head? then some r else none
   | none => none
 
-/-- the three-pass `replace` unescape of the STRING branch, exactly as written. -/
-def replaceAll (pat rep : Str) : Nat → Str → Str
-  | 0, s => s
-  | _, [] => []
-  | fuel + 1, c :: cs =>
-    match lit pat (c :: cs) with
-    | some r => if pat.isEmpty then c :: cs else rep ++ replaceAll pat rep fuel r
-    | none => c :: replaceAll pat rep fuel cs
+/-- `_ESCAPE_SEQUENCE_PATTERN.sub(...)`: single left-to-right pass over `\\"`, `\\\\`, `\\n`, `\\t`;
+any other backslash is kept. -/
+def unescape : Str → Str
+  | [] => []
+  | '\\' :: '"' :: r => '"' :: unescape r
+  | '\\' :: '\\' :: r => '\\' :: unescape r
+  | '\\' :: 'n' :: r => '\n' :: unescape r
+  | '\\' :: 't' :: r => '\t' :: unescape r
+  | c :: r => c :: unescape r
 
-def unescape (s : Str) : Str :=
-  let s1 := replaceAll ['\\', '"'] ['"'] (s.length + 1) s
-  let s2 := replaceAll ['\\', '\\'] ['\\'] (s1.length + 1) s1
-  let s3 := replaceAll ['\\', 'n'] ['\n'] (s2.length + 1) s2
-  replaceAll ['\\', 't'] ['\t'] (s3.length + 1) s3
-
-/-- Python `int(text)` for a NUMBER lexeme without `.`/`e`: value, or ValueError beyond 4300 digits. -/
+/-- Python `int(text)` for a NUMBER lexeme without `.`/`e`: value, or ValueError beyond 4300 digits
+(which `tokenize` re-raises as a positioned `LexerError` E005, see `step`). -/
 def digitsVal (env : Env) : Str → Nat → Nat
   | [], acc => acc
   | c :: cs, acc => digitsVal env cs (acc * 10 + (env.digit? c).getD 0)
@@ -408,7 +417,9 @@ def step (env : Env) (lenient : Bool) (st : LState) (s : Str) : Except Exc (LSta
       | [] => .ok ({ st with pos := st.pos + n, prev := some ' ' }, r1)
     else .ok ({ st with pos := st.pos + 1, prev := some ' ', col := st.col + 1 }, r)
   else do
-    let m? ← matchPattern env (st.pos == 0) st.prev s
+    let m? ← (match matchPattern env (st.pos == 0) st.prev s with
+      | .error _ => .error (Exc.lexer "E005".toList st.line st.col)   -- `except ValueError: raise LexerError`
+      | .ok m => .ok m : Except Exc (Option Match))
     match m? with
     | some m =>
       let tok : Token := { type := m.type, value := m.value, line := st.line, col := st.col, normFrom := m.normFrom, raw := m.raw }
